@@ -17,6 +17,29 @@ def scenarios(ctx, n):
         yield pp_exact_fit_scenario(s + i)
 
 
+def one_simulator_run(ctx, params, algo):
+    """run_simulator on one parameter set (a recorded case)"""
+    import logging, sys, traceback
+    from common import REPO
+    logging.disable(logging.CRITICAL)
+    if REPO not in sys.path:
+        sys.path.insert(0, REPO)
+    from eudoxia.simulator import run_simulator
+    from layer_s import template_scheduler
+    p = dict(params)
+    p["scheduler_algo"] = template_scheduler() if algo == "template" else algo
+    ctx.coverage["evaluations"] += 1
+    try:
+        run_simulator(p)
+        ctx.coverage["distinct_nontrivial"] += 1
+    except BaseException as e:
+        tb = traceback.extract_tb(e.__traceback__)
+        where = next((f"{fr.name}" for fr in reversed(tb) if "eudoxia" in fr.filename), "?")
+        sig = {"clause": "run_simulator-raised", "exception": type(e).__name__, "where": where}
+        ctx.violations.append({"what": f"run_simulator raised {type(e).__name__}: {str(e)[:120]} (in {where}) for a valid configuration", "layer": "M",
+                               "params": {**params, "scheduler_algo": algo}, "sig": sig})
+
+
 def simulator_runs(ctx, n):
     """the whole `run_simulator` path (parameter validation, generated workload, end-of-run aggregation) over random valid
     configurations, also at decimal tick rates and with durations below one tick: it must return statistics"""
@@ -68,6 +91,6 @@ def run(ctx):
 
 def replay(ctx, rep):
     if "params" in rep:
-        simulator_runs(ctx, 60)
+        one_simulator_run(ctx, {k: v for k, v in rep["params"].items() if k != "scheduler_algo"}, rep["params"]["scheduler_algo"])
     else:
         slayer.replay_s(ctx, "C08", rep)
